@@ -107,14 +107,19 @@ def gen_run(rng: random.Random, quick: bool, force=None):
     c["alias"] = force.get("alias", c["arg_mode"] == "views" and rng.random() < 0.5)
     c["extreme"] = force.get("extreme", rng.choice(["-"] * 5 + EXTREMES))
     c.update({kx: force[kx] for kx in ("cond", "scales", "xmag", "diag", "msqrt") if kx in force})
-    if c["extreme"] == "tiny-scale" and "scales" not in force:
+    if c["extreme"] == "tiny-scale":
         c["scales"] = [1e-6, 1e-7, 1e5] if c["dtype"] == "float64" else [1e-3, 1e-4, 1e2]
+    if c["extreme"] == "S-illcond":
+        # innovation covariance dominated by a badly conditioned (but SPD) R: kappa(S) ~ 1e10 (1e4 in float32)
+        c["scales"] = [1e-7, 1e-8, 1.0] if c["dtype"] == "float64" else [1e-4, 1e-5, 1.0]
+        c["cond"] = 1e10 if c["dtype"] == "float64" else 1e4
+        c["diag"] = False
     if c["extreme"] == "x-huge":
         c["xmag"] = 1e6 if c["dtype"] == "float64" else 1e4
     return c
 
 
-EXTREMES = ["y-far", "x-huge", "u-huge", "k-edge", "A-zero", "C-zero", "tiny-scale"]
+EXTREMES = ["y-far", "x-huge", "u-huge", "k-edge", "A-zero", "C-zero", "tiny-scale", "S-illcond"]
 K_EDGE = [1e6, "-n+0.0001", 1e-9, -1e-9]
 
 
@@ -153,6 +158,14 @@ def corpus_runs(quick: bool):
         for ex in EXTREMES:
             specs.append(dict(NICE, filter=flt, n=3, m=2, p=2, dtype="float64", nonlinear=False, T=2, qr_mode="call",
                               t_mode="none", vary_qr=False, extreme=ex, arg_mode="fresh"))
+    for flt in ("ekf", "ukf"):
+        specs.append(dict(NICE, filter=flt, n=2, m=1, p=2, dtype="float64", nonlinear=True, T=4, qr_mode="call",
+                          t_mode="none", vary_qr=True, arg_mode="inplace", k_seq=[1, 2, "none", 0.5]))
+    specs.append(dict(NICE, filter="ukf", n=2, m=1, p=2, dtype="float64", nonlinear=True, T=4, qr_mode="call", t_mode="none",
+                      vary_qr=False, extreme="k-edge", k_seq=[1e6, "-n+0.0001", 1e-9, -1e-9]))
+    for flt in ("ekf", "ukf"):
+        specs.append(dict(NICE, filter=flt, n=4, m=1, p=3, dtype="float64", nonlinear=False, T=2, qr_mode="call", t_mode="none",
+                          vary_qr=False, cond=1e8, k_seq=[1, 1]))
     for sp in specs:
         sp.setdefault("arg_mode", "fresh")
         sp.setdefault("extreme", "-")
@@ -167,9 +180,10 @@ def corpus_runs(quick: bool):
 
 def corpus_pf():
     out = []
-    for i, (n, N, nl) in enumerate([(2, 17, False), (3, 8, True)]):
+    for i, (n, N, nl, am) in enumerate([(2, 17, False, "inplace"), (3, 8, True, "views"), (1, 1, False, "fresh"),
+                                        (2, 40, False, "views")]):
         c = gen_pf(random.Random(130200 + i), False, True, {"dtype": "float64", "nonlinear": nl, "N": N})
-        c.update(seed=130200 + i, n=n, m=1, p=2, T=3, qr_mode="both", corpus=i)
+        c.update(seed=130200 + i, n=n, m=1, p=2, T=3, qr_mode="both", corpus=i, arg_mode=am)
         out.append(c)
     return out
 
@@ -226,8 +240,15 @@ def tol_pair(info, eps, extra=1.0):
         sP = torch.tensor(info["scaleP_entries"], dtype=torch.float64)
         # an entry whose own magnitude bound is tiny still inherits a (much smaller) share of the largest one through
         # the shared factors (gain, inverse): floor at 2^-20 of the maximum
-        sx = torch.maximum(sx, sx.max() * 2.0 ** -20) if sx.numel() else sx
-        sP = torch.maximum(sP, sP.max() * 2.0 ** -20) if sP.numel() else sP
+        # The recursion is covariant under a rescaling of the state coordinates (x -> D x, P -> D P D), so the natural
+        # entry-wise tolerance of P is d_i d_j with d_i^2 the magnitude bound of the i-th diagonal entry (a block of small
+        # states is judged on its own scale, not on the largest state's); floors at 2^-20 of the largest scale cover the
+        # coupling through shared factors.
+        if sx.numel():
+            dg = torch.sqrt(torch.diagonal(sP).clamp_min(0))
+            dg = torch.maximum(dg, dg.max() * 2.0 ** -20)
+            sP = torch.maximum(sP, dg.unsqueeze(-1) * dg.unsqueeze(-2))
+            sx = torch.maximum(sx, sx.max() * 2.0 ** -20)
         return f * sx + 1e-300, f * sP + 1e-300
     return f * info["scalex"] + 1e-300, f * info["scaleP"] + 1e-300
 
@@ -469,6 +490,11 @@ def run_one(ctx: Ctx, c, lines, metas, verbose=False):
         if float(model.systime) != clock0:
             ctx.fail(stepcase, f"state: {c['filter']} call {j} moved the system clock from {clock0} to {float(model.systime)}")
         # ---- tolerance
+        if is_ukf and uinfo is None:
+            # the float64 shadow of the UKF finds no Cholesky factor of the prior / predicted covariance (it is singular at
+            # rounding level; only a user-supplied symmetric root still returns something): no error bound, no verdict
+            ctx.count("run.stopped.rounding-singular-prior")
+            break
         if is_ukf and uinfo is not None:
             extra = 1.0 if lin else max(1.0, uinfo["kappaPm"])
             tolx, tolP = tol_pair(uinfo, eps, extra)
@@ -640,6 +666,7 @@ def gen_pf(rng: random.Random, stat: bool, quick: bool, force=None):
     c["cond"] = rng.choice([1.0, 10.0, 100.0])
     c["scales"] = [10 ** rng.uniform(-2, 2) for _ in range(3)] if not f32 else [10 ** rng.uniform(-1, 1) for _ in range(3)]
     c["xmag"] = rng.choice([0.0, 1.0, 10.0])
+    c["arg_mode"] = force.get("arg_mode", rng.choice(["fresh", "inplace", "views"]))
     return c
 
 
@@ -673,13 +700,16 @@ def materialise_pf(c):
                    "torch_seed": rng.randrange(1 << 31)} for _ in range(c["T"])]
     for st in d["steps"]:
         st["pass_qr"] = c["qr_mode"] == "call" or (c["qr_mode"] == "both" and rng.random() < 0.5)
+        st["qr_scale"] = rng.choice([1.0, 2.0, 0.5])       # the per-call Q, R differ from call to call
     return d
 
 
 def pf_qr(c, d, st, T):
     """(Q, R) in force for this call and the keyword arguments that carry them: given per call, or the constructor's"""
     if st["pass_qr"]:
-        return d["Qc"], d["Rc"], {"Q": T(d["Qc"]), "R": T(d["Rc"])}
+        f = st.get("qr_scale", 1.0)
+        Ql, Rl = [[v * f for v in row] for row in d["Qc"]], [[v * f for v in row] for row in d["Rc"]]
+        return Ql, Rl, {"Q": T(Ql), "R": T(Rl)}
     if c["qr_mode"] == "both":
         return d["Qdecoy"], d["Rdecoy"], {}
     return d["Qc"], d["Rc"], {}
@@ -714,24 +744,43 @@ def run_pf_corr(ctx: Ctx, c, lines, metas):
     n, m, p, N, dt = c["n"], c["m"], c["p"], c["N"], dt_of(c["dtype"])
     eps = common.EPS[c["dtype"]]
     model, pf, T = pf_setup(c, d)
-    x, P = T(d["x0"]), T(d["P0"])
+    mode = c.get("arg_mode", "fresh")
+    feed = Feeder(mode, dt)
+    ctx.count(f"pf-corr.args={mode}")
+    xl, Pl = d["x0"], d["P0"]
     mon = common.PurityMonitor()
     for j, st in enumerate(d["steps"]):
         t_eff = float(model.systime)
         fam = uf.MpFam(d["prm"], t_eff)
-        xl, Pl = x.double().tolist(), P.double().tolist()
         Ql, Rl, kw = pf_qr(c, d, st, T)
-        y = T(pf_measurement(fam, st, n, p, xl, Pl, Rl))
-        u = T(st["u"])
+        yl = uf.round_dt(pf_measurement(fam, st, n, p, xl, Pl, Rl), dt)
+        x, P, y, u = feed.give("x", xl), feed.give("P", Pl), feed.give("y", yl), feed.give("u", st["u"])
+        if kw:
+            kw = {"Q": feed.give("Q", Ql), "R": feed.give("R", Rl)}
         stepcase = dict(c, step=j)
         torch.manual_seed(st["torch_seed"])
         pf.rec = {}
         try:
             with RandRecorder() as rr:
-                x2, P2 = mon.call("pf.forward", pf, x, y, u, P, **kw)
+                out = mon.call("pf.forward", pf, x, y, u, P, **kw)
         except Exception as e:  # noqa: BLE001
-            ctx.fail(stepcase, f"raises: PF raised at call {j}: {type(e).__name__}: {str(e)[:100]}")
+            ctx.fail(stepcase, f"raises: PF raised at call {j} (arguments: {mode}): {type(e).__name__}: {str(e)[:100]}")
             break
+        bad = bad_output(out, n, dt)
+        if bad is not None:
+            ctx.fail(stepcase, f"output: PF call {j} {bad}")
+            break
+        x2, P2 = out
+        for nm in feed.touched():
+            ctx.fail(stepcase, f"mutation: PF call {j} wrote into the caller's buffer behind argument `{nm}` (a view)")
+        if pf.particles != N:
+            ctx.fail(stepcase, f"state: PF call {j} changed its particle count to {pf.particles}")
+        if c["qr_mode"] != "call":
+            cq, cr = (d["Qc"], d["Rc"]) if c["qr_mode"] == "ctor" else (d["Qdecoy"], d["Rdecoy"])
+            if not (torch.equal(pf.Q, T(cq)) and torch.equal(pf.R, T(cr))):
+                ctx.fail(stepcase, f"state: PF call {j} changed the filter's constructor Q/R")
+        if not all(torch.equal(getattr(model, "p_" + kx), T(d["prm"][kx])) for kx in uf.FAM_KEYS):
+            ctx.fail(stepcase, f"state: PF call {j} changed the system's parameters")
         ctx.note_case(("pf-corr", n, m, p, N, c["dtype"], c["nonlinear"], j, c["qr_mode"]), N >= 2)
         ctx.count(f"pf-corr.{'nonlin' if c['nonlinear'] else 'lin'}.{c['dtype']}")
         rec = pf.rec
@@ -760,7 +809,7 @@ def run_pf_corr(ctx: Ctx, c, lines, metas):
         # margin of the discrete decision
         cs = torch.cumsum(rec["q"].double(), dim=-1)
         margin = float((cs.unsqueeze(0) - r.double().unsqueeze(1)).abs().min())
-        lines.append(f"c13.pf {n} {m} {p} {N} 0:0 " + uf.step_tokens(d["prm"], t_eff, st["u"], y.double().tolist(), Ql, Rl, xl, Pl)
+        lines.append(f"c13.pf {n} {m} {p} {N} 0:0 " + uf.step_tokens(d["prm"], t_eff, st["u"], yl, Ql, Rl, xl, Pl)
                      + " " + common.wire_list(uf.flat(rec["xp"].double().tolist())) + " " + common.wire_list(r.double().tolist()))
         ly, lye, lR = (a.double() for a in rec["lik_args"])
         le = ly - lye
@@ -776,10 +825,7 @@ def run_pf_corr(ctx: Ctx, c, lines, metas):
                       "kappaR": float(torch.linalg.cond(lR))})
         if j == 0:
             ctx.sample(dict(c), cap=10)
-        x, P = x2.detach(), P2.detach()
-        if not bool(torch.isfinite(x).all() and torch.isfinite(P).all()):
-            ctx.fail(stepcase, f"raises: PF returned non-finite values at call {j} (N={N})")
-            break
+        xl, Pl = x2.detach().double().tolist(), P2.detach().double().tolist()
     for mu in mon.mutations:
         ctx.fail(dict(c), f"mutation: {mu['function']} changed its argument {mu['argument']}")
 
@@ -882,10 +928,15 @@ def run_pf_stat(ctx: Ctx, c, verbose=False):
         torch.manual_seed(st["torch_seed"])
         pf.rec = {}
         try:
-            x2, P2 = pf(x, y, u, P, **kw)
+            out = pf(x, y, u, P, **kw)
         except Exception as e:  # noqa: BLE001
             ctx.fail(stepcase, f"raises: PF raised at call {j} (N={N}, {c['dtype']}): {type(e).__name__}: {str(e)[:100]}")
             break
+        bad = bad_output(out, n, dt)
+        if bad is not None:
+            ctx.fail(stepcase, f"output: PF call {j} (N={N}) {bad}")
+            break
+        x2, P2 = out
         ctx.note_case(("pf-stat", n, m, p, N, c["dtype"], c["nonlinear"], j), True)
         ctx.count(f"pf-stat.N={N}")
         ctx.count(f"pf-stat.{'nonlin' if c['nonlinear'] else 'lin'}.{c['dtype']}")
